@@ -77,6 +77,8 @@ type Op struct {
 	Fail        bool `json:"fail,omitempty"`
 	Leader      int  `json:"leader,omitempty"`
 	OtherLeader int  `json:"otherLeader,omitempty"`
+	// tick: one doAcquire round at time now; ans: the server's result for the request (nil: none)
+	Ans *TickAns `json:"ans,omitempty"`
 	// answer
 	Named bool  `json:"named,omitempty"`
 	Item  *Item `json:"item,omitempty"`
@@ -93,6 +95,12 @@ type Op struct {
 	RT     int64  `json:"rt,omitempty"`
 }
 
+type TickAns struct {
+	Accept bool   `json:"accept"`
+	Limit  int64  `json:"limit"`
+	Err    string `json:"err"`
+}
+
 // the driver wants every field of an op present
 func (o Op) MarshalJSON() ([]byte, error) {
 	m := map[string]interface{}{"op": o.Op}
@@ -105,6 +113,8 @@ func (o Op) MarshalJSON() ([]byte, error) {
 		m["ok"], m["now"], m["other"] = o.OK, o.Now, o.Other
 	case "sync":
 		m["fail"], m["n"], m["leader"], m["otherLeader"], m["now"] = o.Fail, o.N, o.Leader, o.OtherLeader, o.Now
+	case "tick":
+		m["now"], m["ans"] = o.Now, o.Ans
 	case "answer":
 		m["named"], m["item"] = o.Named, o.Item
 	case "meter":
@@ -156,6 +166,9 @@ type Obs struct {
 	Ret           bool   `json:"ret"`
 	RemoteConfig  *Item  `json:"remoteConfig"`
 	Leader        int    `json:"leader"`
+	Event         bool   `json:"event"`
+	LastSync      int64  `json:"lastSync"`
+	Req           *int64 `json:"req"`
 }
 
 // implementation-only readings
@@ -253,6 +266,8 @@ type runResult struct {
 	Obs   []Obs   `json:"obs"`
 	Extra []Extra `json:"extra"`
 	Panic string  `json:"panic,omitempty"`
+	// the wall clock's second changed inside an acquireRequest call: the virtual unix-second arithmetic is off by one
+	Unreliable bool `json:"-"`
 }
 
 type acquirer interface {
@@ -283,7 +298,7 @@ func normalize(cs Case) Case {
 	if !cs.Cfg.HasCS {
 		var ops []Op
 		for _, o := range cs.Ops {
-			if o.Op == "reconcile" || o.Op == "answer" || o.Op == "setlimit" {
+			if o.Op == "reconcile" || o.Op == "answer" || o.Op == "setlimit" || o.Op == "tick" || o.Op == "event" {
 				continue
 			}
 			ops = append(ops, o)
@@ -297,7 +312,7 @@ func normalize(cs Case) Case {
 	ops := append([]Op{}, cs.Ops...)
 	var clock int64
 	for i, o := range ops {
-		if (o.Op == "hb" && !o.Other) || o.Op == "sync" {
+		if (o.Op == "hb" && !o.Other) || o.Op == "sync" || o.Op == "tick" {
 			if o.Now < clock {
 				ops[i].Now = clock
 			}
@@ -360,6 +375,8 @@ func (g gatedClientSets) ClientID() string                      { return g.real.
 // (each waiting TryAcquire leaks one goroutine inside waitAcquire, in the real code too).
 var wrapperProbeBudget = 40000
 
+type counterState struct{ exists, event bool }
+
 func runImpl(c *rig.Ctx, cs Case, rnd func(int) int) (res runResult) {
 	ctx, cancel := context.WithCancel(context.Background())
 	defer cancel()
@@ -384,6 +401,17 @@ func runImpl(c *rig.Ctx, cs Case, rnd func(int) int) (res runResult) {
 		if !clockSet || now > clock {
 			clock, clockSet = now, true
 		}
+	}
+
+	// the virtual unix second of the last real write to the counter's lastSyncTime, and the request of the last tick
+	var lastSyncV int64
+	var lastReq *int64
+	hadRemote, adds := false, 0
+	unixS := func(ns int64) int64 {
+		if ns >= 0 {
+			return ns / 1e9
+		}
+		return -((-ns + 1e9 - 1) / 1e9)
 	}
 
 	msg, panicked := rig.Recover(func() {
@@ -441,10 +469,62 @@ func runImpl(c *rig.Ctx, cs Case, rnd func(int) int) (res runResult) {
 						lastRet = rf.SetLimit(remote.VerifAcquireResult(fcName, op.HasReq, i32(op.Tokens), op.Accept, i32(op.Limit), op.Err, op.RT))
 					}
 				}
+			case "event":
+				if cache != nil {
+					remote.VerifRaiseEvent(cache)
+				}
+			case "tick":
+				advance(op.Now)
+				lastReq = nil
+				if cache != nil {
+					sent, tokens, req, unrel := remote.VerifAcquireRequest(cache, op.Now, unixS(op.Now)-lastSyncV)
+					if unrel {
+						res.Unreliable = true
+					}
+					if sent {
+						t := int64(tokens)
+						lastReq = &t
+						if op.Ans != nil {
+							remote.VerifSend(cache, req, op.Ans.Accept, i32(op.Ans.Limit), op.Ans.Err, op.Now)
+						}
+					}
+				}
 			default:
 				panic("harness: unknown op " + op.Op)
 			}
+			cnt := counterState{}
+			if cache != nil {
+				if hadRemote && !remote.VerifHasRemote(cache) {
+					// the remote wrapper was stopped: wait for the Stop(name) of every Add made under it
+					remote.VerifSettleCounter(cache)
+					if !remote.VerifDrainStops(cache, adds) {
+						if os.Getenv("C09_DEBUG") != "" {
+							fmt.Fprintf(os.Stderr, "drain failed adds=%d hadCounter=%v case=%s\n", adds, hadCounter, rig.Canon(cs))
+						}
+						res.Unreliable = true
+					}
+					adds = 0
+				}
+				hadRemote = remote.VerifHasRemote(cache)
+				exists, isNew, ev, ls := remote.VerifCounter(cache)
+				if isNew {
+					adds++
+				}
+				if exists && (isNew || ls != remote.VerifLastSyncMark) {
+					// the real code wrote the current time: resetCheck when the counter was created, send after an answer
+					lastSyncV = unixS(clock)
+					remote.VerifSetLastSync(cache, remote.VerifLastSyncMark)
+				}
+				cnt = counterState{exists: exists, event: ev}
+			}
 			o, x := observe(cs, ul, cache, bare, lastRet, rnd)
+			if cnt.exists {
+				remote.VerifSetEvent(cache, cnt.event) // the probes went through Count too
+				if o.WKind == 2 || o.WKind == 3 {
+					o.Event, o.LastSync = cnt.event, lastSyncV
+				}
+			}
+			o.Req = lastReq
 			o.Leader = leaderIndex(clientsets.VerifLeader(bare, shard))
 			res.Obs = append(res.Obs, o)
 			res.Extra = append(res.Extra, x)
@@ -556,6 +636,7 @@ func observe(cs Case, ul flowcontrols.UpstreamLimiter, cache remote.FlowControlC
 		for i := 0; i < 300; i++ {
 			if fc.TryAcquire() {
 				n++
+				fc.Release() // nothing for a token bucket, but the meter counts the request as finished
 			}
 		}
 		x.ZeroQPS = n
@@ -564,6 +645,7 @@ func observe(cs Case, ul flowcontrols.UpstreamLimiter, cache remote.FlowControlC
 		for i := 0; i < 300; i++ {
 			if rf.TryAcquire() {
 				n++
+				rf.Release()
 			}
 		}
 		x.ZeroQPS = n
@@ -579,6 +661,7 @@ func observe(cs Case, ul flowcontrols.UpstreamLimiter, cache remote.FlowControlC
 		for i := 0; i < attempts; i++ {
 			if fc.TryAcquire() {
 				n++
+				fc.Release()
 			}
 		}
 		el := time.Since(t0)
@@ -611,10 +694,15 @@ func evaluate(c *rig.Ctx, cs Case, rnd func(int) int) (*failure, runResult) {
 	for attempt := 0; ; attempt++ {
 		t0 := time.Now()
 		res = runImpl(c, cs, rnd)
-		// the count wrappers' resetCheck goroutine injects a "timeout" reply after > 4 s without an answer:
-		// a case that took that long (machine stalled) is run again rather than judged
-		if time.Since(t0) < 2500*time.Millisecond || attempt >= 3 {
+		// Wall-clock residue: globalCounter.send raises an event 200 ms after an answer that wants more tokens, and
+		// the second of the wall clock may change inside acquireRequest. A case that took that long (machine stalled)
+		// or hit the second boundary is run again; if it stays slow it is skipped, never judged.
+		if time.Since(t0) < 120*time.Millisecond && !res.Unreliable {
 			break
+		}
+		if attempt >= 5 {
+			c.Count("case:skipped-slow")
+			return nil, runResult{Obs: []Obs{}, Extra: []Extra{}}
 		}
 	}
 	var m modelReply
@@ -772,7 +860,7 @@ func main() {
 		}
 	}
 	rig.Main("C09", func(c *rig.Ctx) {
-		c.SetRule("a case = (rateLimiter, client set present, shard count) + 8-22 operations on the real upstreamLimiter: schema syncs (valid schemas, 0<=local<=global, limits and strategy change, type fixed), heartbeats and server-info syncs (real clientSets.sync() against a scripted /ratelimit/endpoints: unreachable, no endpoint, same leader, changed leader) on a shifted clock, reconcile halves with answered items (limits from {-2^31,-300,-1,0,1,reserve,local,global-1,global,global+1,2^31-1} and random, all item types and strategies), acquire results (accept/refuse, same limits, errors, RequestIDTooOld, stale/zero/negative request times), meter readings; distinct = distinct canonical case; non-trivial = the remote limiter is handed to requests at some step")
+		c.SetRule("a case = (rateLimiter, client set present, shard count) + 8-22 operations on the real upstreamLimiter: schema syncs (valid schemas, 0<=local<=global, limits and strategy change, type fixed), heartbeats and server-info syncs (real clientSets.sync() against a scripted /ratelimit/endpoints: unreachable, no endpoint, same leader, changed leader) on a shifted clock, reconcile halves with answered items (limits from {-2^31,-300,-1,0,1,reserve,local,global-1,global,global+1,2^31-1} and random, all item types and strategies), acquire results (accept/refuse, same limits, errors, RequestIDTooOld, stale/zero/negative request times), rounds of the counter manager (real acquireRequest + globalCounter.send with scripted answers: accept/refuse/error/none) and counter events, meter readings; distinct = distinct canonical case; non-trivial = the remote limiter is handed to requests at some step")
 		if c.Replay != "" {
 			var cs Case
 			if err := c.LoadReplay(&cs); err != nil {
@@ -876,6 +964,14 @@ func account(c *rig.Ctx, cs Case, res runResult) {
 			}
 		case "hb":
 			k += fmt.Sprintf(":ok=%v", op.OK)
+		case "tick":
+			if op.Ans == nil {
+				k += ":unanswered"
+			} else if op.Ans.Err != "" {
+				k += ":error"
+			} else {
+				k += fmt.Sprintf(":accept=%v", op.Ans.Accept)
+			}
 		case "sync":
 			switch {
 			case op.Fail:
